@@ -53,11 +53,15 @@ macro_rules! for_props {
     };
 }
 
+/// netsim is built twice: as usual with overflow checks and debug assertions compiled in ("netsim"), and as a plain
+/// release build without them ("netsim-plain") - the profile deployments run, in which `debug_assert!` bodies vanish
+pub const NETSIM_ENGINE: &str = if cfg!(debug_assertions) { "netsim" } else { "netsim-plain" };
+
 fn engine() -> &'static str {
     if cfg!(huginn_net_verif_sched) {
         "poolsim"
     } else {
-        "netsim"
+        NETSIM_ENGINE
     }
 }
 
